@@ -56,29 +56,47 @@ package jsonparser
 // every index into the received frames is proved in range (safety bounds: index/slice obligations only; the
 // reflect kind preconditions are guarded by Kind() tests in the code and are not modelled).
 //@ func (*reconstructor).reconstructValue
+//@   opt library C10.reflect
 //@   opt safety bounds
 //@   opt arith wrap64
 //@   modifies *
 //@ func (*reconstructor).reconstructPacket
+//@   opt library C10.reflect
 //@   opt safety bounds
 //@   opt arith wrap64
 //@   modifies *
+// Also proved (C10): no method that panics on the zero reflect.Value is ever called on one - what Elem of a nil
+// pointer / interface the peer's JSON left unset, or MapIndex of a missing key, return. The walkers that need a
+// valid Value say so, and every call of them is checked; reconstructValue itself accepts any Value.
 //@ func (*reconstructor).reconstructStruct
+//@   opt library C10.reflect
 //@   opt safety bounds
 //@   opt arith wrap64
+//@   requires rvalid(rv) [C10.reflect.walk.values.are.valid]
 //@   modifies *
 //@ func (*reconstructor).reconstructBinaryValue
+//@   opt library C10.reflect
 //@   opt safety bounds
 //@   opt arith wrap64
+//@   requires rvalid(rv) && rvalid(original) [C10.reflect.walk.values.are.valid]
 //@   modifies *
 //@ func (*reconstructor).reconstructMap
+//@   opt library C10.reflect
 //@   opt safety bounds
 //@   opt arith wrap64
+//@   requires rvalid(rv) [C10.reflect.walk.values.are.valid]
 //@   modifies *
+//@   callsite (*reconstructor).reconstructBinaryValue
+//@     requires rvalid(mv) && rvalid(rv) [C10.reflect.setter.captures.valid.values]
+//@   loop 0 invariant rvalid(rv)
+// (the precondition of the setter closure is established where the closure is handed over: the clause above)
 //@ func (*reconstructor).reconstructMap$1
+//@   opt library C10.reflect
 //@   opt safety bounds
 //@   opt arith wrap64
+//@   requires rvalid(mv) && rvalid(rv)
 //@ func (*reconstructor).reconstruct
+//@   opt library C10.reflect
 //@   opt safety bounds
 //@   opt arith wrap64
 //@   requires r.header != nil
@@ -86,14 +104,18 @@ package jsonparser
 //@   callsite Unmarshal
 //@     assume r.header == pre(r.header) && r.header.Type == pre(r.header.Type) // JSON decoding into the handler's values does not reach the packet header
 //@ func (*reconstructor).decode
+//@   opt library C10.reflect
 //@   opt safety bounds
 //@   opt arith wrap64
 //@   modifies *
 //@ func convertTypesToValues
+//@   opt library C10.reflect
 //@   modifies *
 //@   opt safety bounds
 //@   opt arith wrap64
 //@   ensures len(values) == len(types) [C10.convert.len]
+//@   ensures forall k int :: 0 <= k && k < len(values) ==> rvalid(values[k]) && rnonnil(values[k]) [C10.convert.valid]
+//@   loop 0 invariant len(values) == len(types) && forall k int :: 0 <= k && k <= rangeindex ==> rvalid(values[k]) && rnonnil(values[k])
 
 // ---------------------------------------------------------------------------------------------
 // C09 / C05. The Socket.IO v5 header layout as an order/effect contract of the encoder: the first byte is the type
@@ -128,3 +150,10 @@ package jsonparser
 //@     update payloads = payloads + 1
 //@   ensures stage == (header.ID != nil ? 4 : ((header.Namespace != "" && header.Namespace != "/") ? 3 : ((header.Type == 5 || header.Type == 6) ? 2 : 1))) [C09.enc.header.complete]
 //@   ensures payloads <= 1 [C09.enc.payload.once]
+
+// C10 / C01 / C05: every call of the parser factory yields a NEW parser with no packet in reassembly - connections
+// never share decoder state (a peer that stalls in the middle of a binary packet wedges only its own connection, and
+// frames of two connections cannot be stitched into one packet).
+//@ func NewCreator$1
+//@   ensures typeis(result, *Parser) && unbox(result, *Parser) != nil && fresh(unbox(result, *Parser)) [C10.creator.new.parser.per.call]
+//@   ensures unbox(result, *Parser).r == nil [C10.creator.parser.starts.idle]
